@@ -58,6 +58,16 @@ fn run_property(env: &Env, rec: &Recorder) -> (String, String, Vec<&'static str>
             let (r, a) = props::raw_family::run(env, rec, props::raw_family::Which::C17);
             ("exploration".into(), r, a)
         },
+        "C01" =>
+        {
+            let (r, a) = props::c01::run(env, rec);
+            ("exploration".into(), r, a)
+        },
+        "C07" =>
+        {
+            let (r, a) = props::c07::run(env, rec);
+            ("fault_enumeration".into(), r, a)
+        },
         "C12" =>
         {
             let (r, a) = props::c12::run(env, rec);
